@@ -481,6 +481,16 @@ impl<'a> WriteTxn<'a> {
         self.inner.set_vector(node, vector).map_err(Error::from)
     }
 
+    /// Remembers the staged writes so that a failed statement can be undone with [`WriteTxn::rollback_to`].
+    pub fn savepoint(&self) -> nervusdb_storage::engine::TxnSavepoint {
+        self.inner.savepoint()
+    }
+
+    /// Discards everything staged since `savepoint`; the transaction stays usable.
+    pub fn rollback_to(&mut self, savepoint: nervusdb_storage::engine::TxnSavepoint) {
+        self.inner.rollback_to(savepoint);
+    }
+
     /// Commits the transaction.
     ///
     /// All modifications are written to the WAL and made visible
